@@ -51,7 +51,12 @@ def dump(typ, val, tb, include_local_traceback, include_local_version):
         return typ
 
     if include_local_traceback:
-        tbtext = "".join(traceback.format_exception(typ, val, tb))
+        try:
+            tbtext = "".join(traceback.format_exception(typ, val, tb))
+        except Exception:
+            # the exception cannot format itself (e.g. a SyntaxError built with ill-typed details): send the stack anyway
+            tbtext = "Traceback (most recent call last):\n" + "".join(traceback.format_tb(tb)) + (
+                "%s.%s (the exception could not be formatted)\n" % (typ.__module__, typ.__name__))
     else:
         tbtext = "<traceback denied>"
     attrs = []
